@@ -44,7 +44,7 @@ PROPS = {
     },
     "C07": {
         "props_files": ["Props/C07.v"],
-        "go_tests": ["TestVerifPolicy"],
+        "go_tests": ["TestVerifPolicy", "TestVerifDList"],
         "level": "proof",
         "rule": "random insert / access / remove / cost-update / forced-climb sequences on the real TinyLfu for capacities 1..2000 "
                 "(tiny ones over-represented), costs skewed to 1, window capacity +-1 and the full capacity, sketch contents and "
@@ -85,6 +85,12 @@ PROPS["C05"] = store_prop(["Props/C05.v"], ["3", "4", "11"], ["C05"],
     ["entry pool disabled, no secondary cache (demotion to a secondary cache is not a removal)", "Close is excluded: it empties the map without notifications by design"])
 PROPS["C06"] = store_prop(["Props/C06.v"], ["0", "1", "8", "3", "4", "11"], ["C06"],
     "Set/loader admission rules over the store model; Set results, immediate visibility and removal reasons compared with the real Store")
+PROPS["C06"]["go_tests"] = ["TestVerifStore", "TestVerifDoorkeeper"]
+PROPS["C06"]["rule"] = STORE_RULE + ("; plus the doorkeeper of one shard of a real Store (Doorkeeper on, no capacity pressure): 100..2600 Sets of non-resident keys of that shard (first and "
+                                     "repeated sightings in three mixes that drive the reset counter past the filter capacity and grow the shard map past the filter's capacity), deletes, "
+                                     "overwrites and Exist probes; verdict, reset counter, map size, filter capacity / bits / probes and the number of bits set compared after every operation")
+PROPS["C06"]["trusted_base"] = STORE_TB + ["the doorkeeper verdict is an input of the store model; the doorkeeper itself (internal/bf/bf.go and its use in setShardWithoutLock / Shard.set) is a separate "
+                                          "model (Model/Bloom.v) compared with the real filter; the float64 sizing of a grown filter is modelled over rationals and only compared, not proved equal"]
 PROPS["C16"] = store_prop(["Props/C16.v"], ["5", "6"], ["C16"],
     "counters and views of the model vs Stats/Len/Range/EstimatedSize of the real Store")
 PROPS["STORE"] = store_prop([], ["0", "1", "2", "3", "4", "5", "6", "7", "8", "9", "10", "11"], ["C01", "C02", "C03", "C04", "C05", "C06", "C16"], "scratch")
@@ -145,7 +151,9 @@ PROPS["C10"] = {
 
 PROPS["C13"] = {
     "props_files": ["Props/C13.v"],
-    "go_tests": ["TestVerifFlight"],
+    "go_tests": ["TestVerifFlight", "TestVerifFlightRecycle"],
+    "impl_only_traces": ["flightrecycle"],
+    "monitor_tags": ["C13"],
     "level": "proof",
     "rule": "scripted schedules on the real Group.Do: callers entering on 3 keys while loads are in flight (the loader is the leader's yield point, "
             "joiners are detected through the record's dups counter), loads ending with ok / error / panic / Goexit, call records being re-issued "
@@ -229,7 +237,7 @@ PROPS["C09"] = {
 
 PROPS["C19"] = {
     "props_files": ["Props/C19.v"],
-    "go_tests": ["TestVerifRBMutex"],
+    "go_tests": ["TestVerifRBMutex", "TestVerifFlightRecycle"],
     "race_tests": ["TestVerifRace", "TestVerifCountersConcurrent", "TestVerifWaitConcurrent", "TestVerifHybridSlow"],
     "level": "proof",
     "rule": "lock table regenerated from the sources on every run (one row per field access reachable from the public API); the real RBMutex with 1..16 slots stepped one atomic operation at a time by 2..5 goroutines "
@@ -242,7 +250,7 @@ PROPS["C19"] = {
                      "(entry already removed from its shard map), constructors (New* and helpers called only from them), entry-pool-only branches",
                      "Go memory model (sequentially consistent sync/atomic), sync.Mutex / sync.RWMutex taken as correct locks; RBMutex is no longer trusted: its Lock/RLock/RUnlock/Unlock are modelled per atomic operation (Model/RBMutex.v), proved exclusive for every schedule, and the real code is stepped against the model through hook H8 (TryLock / TryRLock of RBMutex are not used by the cache and not modelled)"],
     "assumptions": ["entry pool disabled", "the race detector runs are a search aid, not part of the proof"],
-    "impl_only_traces": ["race", "counters", "waitconc", "hybridslow"],
+    "impl_only_traces": ["race", "counters", "waitconc", "hybridslow", "flightrecycle"],
     "monitor_tags": ["C19"],
     "timeout": {"quick": 900, "thorough": 2400},
     "explanation": "lockset theorem over a table scraped from the sources; discipline of the current table checked by computation in Coq; mutual exclusion of the reader-biased shard lock proved for all schedules and the real lock stepped against that model; -race runs as search",
@@ -284,16 +292,19 @@ def c19_extra(pid, tier, seed, outdir):
 
 PROPS["C19"]["extra"] = c19_extra
 
-PROPS["C01"]["go_tests"] = ["TestVerifStore", "TestVerifPoolAlias"]
-PROPS["C01"]["impl_only_traces"] = ["poolalias"]
-PROPS["C01"]["rule"] = STORE_RULE + "; plus, for the entry-pool configurations (outside the model), concurrent runs of 8 goroutines on pool-enabled plain and loading stores of 4..13 entries over 48 keys, checking that every value read for a key was written or loaded for that key"
+for _p in ("C11", "C12", "C04"):
+    PROPS[_p]["timeout"] = {"quick": 900, "thorough": 3000}
+PROPS["C01"]["go_tests"] = ["TestVerifStore", "TestVerifPoolAlias", "TestVerifRangeConcurrent"]
+PROPS["C01"]["impl_only_traces"] = ["poolalias", "rangeconc"]
+PROPS["C01"]["rule"] = STORE_RULE + "; plus, for the entry-pool configurations (outside the model), concurrent runs of 8 goroutines on pool-enabled plain and loading stores of 4..13 entries over 48 keys, checking that every value read for a key was written or loaded for that key; and Range racing Delete / Set of the keys of the shard it is visiting (plain and pool): no visit of a key whose Delete has returned, no value older than a returned Set"
 PROPS["C01"]["assumptions"] = ["the theorems cover the entry pool disabled; with the pool enabled only the 'never a value of another key' clause is exercised, by a concurrent harness (testing)"]
 
 # store-level part of C04 / C03: ticks and reads of the real Store under the deterministic driver
-PROPS["C04"]["go_tests"] = ["TestVerifWheel", "TestVerifStore"]
+PROPS["C04"]["go_tests"] = ["TestVerifWheel", "TestVerifStore", "TestVerifPersist"]
+PROPS["C04"]["env"] = {"VERIF_PERSIST": "restore-only"}
 PROPS["C04"]["project_codes"] = {"store": ["4", "11"]}
 PROPS["C04"]["monitor_tags"] = ["C04"]
-PROPS["C04"]["rule"] += "; plus the store histories (" + STORE_RULE[:120] + "...): after every maintenance tick no entry whose deadline has passed and whose events have been delivered may still be resident"
+PROPS["C04"]["rule"] += "; plus the store histories (" + STORE_RULE[:120] + "...): after every maintenance tick no entry whose deadline has passed and whose events have been delivered may still be resident; plus entries restored by LoadCache (saving cache up for 0..73 min, loaded 0..4.9 h later): ticks played one finest-wheel tick after the deadlines of up to 10 restored entries, same criterion"
 PROPS["C03"]["go_tests"] = ["TestVerifExpiry", "TestVerifStore"]
 PROPS["C03"]["project_codes"] = {"store": ["0", "5", "8"]}
 PROPS["C03"]["monitor_tags"] = ["C03"]
